@@ -503,8 +503,12 @@ func (a *Adversary) badBlock(h uint64) bool {
 		return false
 	}
 	E := a.newBlock(h, true)
-	if a.r.Intn(3) == 0 { // a good-looking block of another height
+	switch a.r.Intn(4) {
+	case 0: // a good-looking block of another height
 		E = a.newBlock(h+1+uint64(a.r.Intn(2)), false)
+	case 1: // a block on which the consumers' validators crash instead of answering
+		E.Body = spi.PanicBody + "-" + E.Body
+		a.w.Mon.Stats["adv blocks that crash the validator"]++
 	}
 	inst := uint64(spi.InstanceId)
 	if v == 0 || a.r.Intn(2) == 0 {
@@ -1562,6 +1566,24 @@ func (a *Adversary) goodNV(h uint64) bool {
 		hash = spi.HashOf(blk)
 	}
 	nodes := a.at(h)
+	if !have && a.r.Intn(3) == 0 {
+		// the signed proposal of the view first travels alone, with its good block, to nodes that have not reached the view (they
+		// validate it and drop it as a future-view message); the valid NEW_VIEW that follows embeds the very same signed
+		// proposal but has a block next to it that every validator rejects (blocks are not covered by signatures)
+		pp := a.mkRefMsg(ref.EnvPP, ref.PP, leader, inst, h, v, hash, blk)
+		for _, n := range nodes {
+			if uint64(n.St.View()) < v {
+				a.send(leader, n.Id, pp) // (withheld in the workloads that leave standalone PREPREPAREs above view 0 out)
+			}
+		}
+		bad := a.newBlock(h, true)
+		a.w.Mon.Stats["adv approved proposal followed by a NEW_VIEW carrying another block"]++
+		nv := a.mkNV(leader, h, v, votes, hash, bad, v)
+		for _, n := range nodes {
+			a.send(leader, n.Id, nv)
+		}
+		return true
+	}
 	if a.r.Intn(2) == 0 {
 		for _, n := range nodes {
 			if uint64(n.St.View()) < v {
